@@ -194,9 +194,11 @@ func (c *Ctx) RuleErrZero(fns []*ssa.Function) {
 	}
 }
 
-// ReturnValues gives the operands of a return with go/ssa's defer spill undone: in a function with a defer the
-// builder stores every result into a result cell, runs the defers and returns the reloaded cells; where the cell is
-// not captured by a closure (no deferred function can change it) the reload is the value stored last in that block.
+// ReturnValues gives the operands of a return with go/ssa's result spill undone: in a function with a defer, or
+// whose named results are address-taken, the builder stores every result into a result cell, (runs the defers) and
+// returns the reloaded cells. Where nothing between the store and the reload can write the cell — only stores to
+// other cells, loads, and a rundefers for a cell no closure or callee has the address of — the reload is the value
+// stored last in that block.
 func ReturnValues(ret *ssa.Return) []ssa.Value {
 	out := make([]ssa.Value, len(ret.Results))
 	copy(out, ret.Results)
@@ -210,22 +212,21 @@ func ReturnValues(ret *ssa.Return) []ssa.Value {
 		if !ok {
 			continue
 		}
-		captured := false
+		// may a deferred function reach the cell? (captured by a closure, address passed on or stored)
+		shared := false
 		for _, u := range *cell.Referrers() {
-			switch u.(type) {
-			case *ssa.Store, *ssa.UnOp, *ssa.DebugRef:
+			switch x := u.(type) {
+			case *ssa.UnOp, *ssa.DebugRef, *ssa.FieldAddr, *ssa.IndexAddr:
+			case *ssa.Store:
+				if x.Val == ssa.Value(cell) {
+					shared = true
+				}
 			default:
-				captured = true
+				shared = true
 			}
-			if st, ok := u.(*ssa.Store); ok && st.Val == ssa.Value(cell) {
-				captured = true
-			}
-		}
-		if captured {
-			continue
 		}
 		var last ssa.Value
-		sawDefers := false
+		clean := true
 		for _, in := range blk.Instrs {
 			if in == ssa.Instruction(ld) {
 				break
@@ -233,13 +234,22 @@ func ReturnValues(ret *ssa.Return) []ssa.Value {
 			switch x := in.(type) {
 			case *ssa.Store:
 				if x.Addr == ssa.Value(cell) {
-					last = x.Val
+					last, clean = x.Val, true
+					continue
 				}
+				if a, isAlloc := x.Addr.(*ssa.Alloc); !isAlloc || a == cell {
+					clean = false // a store through a computed address: may be a field of the cell
+				}
+			case *ssa.UnOp, *ssa.DebugRef:
 			case *ssa.RunDefers:
-				sawDefers = true
+				if shared {
+					clean = false
+				}
+			default:
+				clean = false
 			}
 		}
-		if last != nil && sawDefers {
+		if last != nil && clean {
 			out[i] = last
 		}
 	}
